@@ -188,6 +188,22 @@ class ScriptAction:
                 if new not in ups:
                     dev.set_upstream(ups + [new])
                     out = 'added'
+            elif kind == 'rewire_remove':
+                # the documented way to change connections: read the list, edit it, set it again
+                ups = dev.upstream
+                cands = [u for u in ups if len(u._downstream) >= 2]
+                if len(ups) >= 2 and cands:
+                    x = cands[op.get('k', 0) % len(cands)]
+                    ups.remove(x)
+                    dev.set_upstream(ups)
+                    out = 'removed:' + x.name
+            elif kind == 'env_run':
+                # the user drives the public Environment directly between two simulate() calls
+                w.system.env.run(op['d'])
+            elif kind == 'env_step':
+                for _ in range(op.get('n', 1)):
+                    if w.system.env._events:
+                        w.system.env.step()
             elif kind == 'create_asset':
                 # an asset with a value of its own created while the simulation is running
                 from simprocesd.model.factory_floor import Maintainer, PartHandler
